@@ -1,0 +1,4 @@
+// Package verifhook provides labelled schedule points for the external
+// verification harness. Built without the "verif" tag every function in this
+// package is an empty, inlinable no-op.
+package verifhook
